@@ -1,18 +1,1021 @@
-//! C13 — not built yet.
+//! C13 — writing a zone to text and reading it back changes nothing.
+//!
+//! z1 = parse(t) (or a zone built through the insertion API), t2 =
+//! serialise(z1), z2 = parse(t2): z2 must denote the same zone as z1 (apex,
+//! SOA, records, wildcard records, TTLs — compared as sorted dumps so that
+//! HashMap/Vec order can never raise an alarm) and serialise(z2) must be t2
+//! again; the `ztoz` binary must map t to t2 and t2 to t2.
+
+use crate::c02::{name_from_wire, wire_name};
 use crate::common::*;
-use serde_json::Value;
+use crate::util::*;
+use crate::c11::zonegen::*;
+use dns_types::protocol::types::*;
+use dns_types::zones::types::{Zone, SOA};
+use serde_json::{json, Value};
+use std::collections::{BTreeMap, BTreeSet};
+use std::io::Write;
+use std::process::{Command, Stdio};
 
-pub fn run(_ctx: &Ctx) -> i32 {
-    eprintln!("C13: check not built");
-    2
+pub const SLUG_LONE_AT: &str = "lone-at-label";
+
+/// The 13 special octets of DESIGN C13.
+const SPECIALS: [u8; 13] = [b'"', b'\\', b';', b'(', b')', b' ', b'\t', b'@', b'*', b'$', b'#', b'\n', 0];
+
+fn ztoz_path() -> String {
+    std::env::var("VERIF_ZTOZ")
+        .unwrap_or_else(|_| crate::common::bin_dir().join("ztoz").display().to_string())
 }
 
-pub fn replay(_ctx: &Ctx, _v: &Value) -> i32 {
-    eprintln!("C13: check not built");
-    2
+// ---------------------------------------------------------------------------
+// observation helpers
+// ---------------------------------------------------------------------------
+
+fn parse(text: &str) -> Result<Result<Zone, String>, ()> {
+    std::panic::catch_unwind(|| Zone::deserialise(text).map_err(|e| format!("{e:?}"))).map_err(|_| ())
 }
 
-/// Entry point for `vcheck worker C13 <args...>` (child-process mode).
+fn serialise(z: &Zone) -> Result<String, ()> {
+    std::panic::catch_unwind(std::panic::AssertUnwindSafe(|| z.serialise())).map_err(|_| ())
+}
+
+/// Lines sorted inside every blank-line-separated block: `Zone::serialise`
+/// prints the record types of one name in HashMap order, which differs from
+/// map to map and from process to process; the order carries no meaning.
+fn canonical(text: &str) -> String {
+    let mut out = String::new();
+    let mut block: Vec<&str> = Vec::new();
+    for line in text.split('\n') {
+        if line.is_empty() {
+            block.sort_unstable();
+            for l in block.drain(..) {
+                out.push_str(l);
+                out.push('\n');
+            }
+            out.push('\n');
+        } else {
+            block.push(line);
+        }
+    }
+    block.sort_unstable();
+    for l in block {
+        out.push_str(l);
+        out.push('\n');
+    }
+    out
+}
+
+/// True when no name of the zone holds two record types in one map (SOA
+/// aside), i.e. when `serialise` has only one possible output.
+fn single_order(z: &Zone) -> bool {
+    for (_, zrs) in z.all_records() {
+        let mut types = BTreeSet::new();
+        for zr in zrs {
+            let t = zr.rtype_with_data.rtype();
+            if t != RecordType::SOA {
+                types.insert(u16::from(t));
+            }
+        }
+        if types.len() > 1 {
+            return false;
+        }
+    }
+    for (_, zrs) in z.all_wildcard_records() {
+        let mut types = BTreeSet::new();
+        for zr in zrs {
+            types.insert(u16::from(zr.rtype_with_data.rtype()));
+        }
+        if types.len() > 1 {
+            return false;
+        }
+    }
+    true
+}
+
+fn short(text: &str) -> String {
+    let mut s = String::new();
+    for c in text.chars() {
+        match c {
+            '\n' => s.push_str("\\n"),
+            '\t' => s.push_str("\\t"),
+            '\0' => s.push_str("\\0"),
+            c => s.push(c),
+        }
+    }
+    s
+}
+
+/// What the dump of z1 becomes if every name that is exactly the label `@`
+/// under the apex is read back as the apex itself (the anticipated defect).
+fn lone_at_reading(d: &Dump) -> Option<Dump> {
+    if d.soa.is_none() || d.apex == "." {
+        return None;
+    }
+    let needle = format!("@.{}", d.apex);
+    let fix = |line: &String| -> String {
+        line.split(' ')
+            .map(|tok| if tok == needle { d.apex.clone() } else { tok.to_string() })
+            .collect::<Vec<_>>()
+            .join(" ")
+    };
+    let mut any = false;
+    let mut conv = |v: &Vec<String>| -> Vec<String> {
+        let mut o: Vec<String> = v
+            .iter()
+            .map(|l| {
+                let f = fix(l);
+                any |= f != *l;
+                f
+            })
+            .collect();
+        o.sort();
+        o.dedup();
+        o
+    };
+    let recs = conv(&d.recs);
+    let wild = conv(&d.wild);
+    let soa = d.soa.as_ref().map(&fix);
+    any |= soa != d.soa;
+    if !any {
+        return None;
+    }
+    Some(Dump {
+        apex: d.apex.clone(),
+        soa,
+        recs,
+        wild,
+    })
+}
+
+#[derive(Default)]
+struct Acc {
+    cases: u64,
+    calls: u64,
+    validated: u64,
+    hist: BTreeMap<String, u64>,
+    /// hash of canonical(t2), lowest bit = non-trivial
+    hashes: Vec<u64>,
+    samples: Vec<Value>,
+    vcount: BTreeMap<String, u64>,
+}
+
+impl Acc {
+    fn h(&mut self, k: &str) {
+        *self.hist.entry(k.to_string()).or_insert(0) += 1;
+    }
+}
+
+fn violate(acc: &mut Acc, sink: &Sink, clause: &str, slug: Option<&'static str>, summary: String, replay: Value) {
+    let n = acc.vcount.entry(format!("{clause}|{}", slug.unwrap_or(""))).or_insert(0);
+    *n += 1;
+    if *n > 10 {
+        return;
+    }
+    sink.push(Violation {
+        clause: clause.to_string(),
+        summary,
+        replay,
+        slug,
+    });
+}
+
+/// The round trip from a zone value.  `origin` describes the input for
+/// messages and the replay file.
+fn round_trip(acc: &mut Acc, sink: &Sink, space: &str, z1: &Zone, shown: &str, replay: &Value) {
+    let d1 = dump_zone(z1);
+    acc.calls += 1;
+    let t2 = match serialise(z1) {
+        Ok(t) => t,
+        Err(()) => {
+            violate(acc, sink, "panic", None, format!("{shown} [{space}]: Zone::serialise panicked"), replay.clone());
+            return;
+        }
+    };
+    let nontrivial = t2.contains('\\') || t2.contains('@') || t2.contains("*.") || t2.contains('"');
+    acc.hashes.push((fnv64(canonical(&t2).as_bytes()) & !1) | u64::from(nontrivial));
+    acc.calls += 1;
+    let z2 = match parse(&t2) {
+        Err(()) => {
+            violate(acc, sink, "panic", None, format!("{shown} [{space}]: parsing the serialised zone panicked: {}", short(&t2)), replay.clone());
+            return;
+        }
+        Ok(Err(e)) => {
+            acc.h(&format!("{space}:VIOLATION-reparse-fails"));
+            violate(
+                acc,
+                sink,
+                "serialised-zone-does-not-parse",
+                None,
+                format!("{shown} [{space}]: serialised as {} which is rejected: {e}", short(&t2)),
+                replay.clone(),
+            );
+            return;
+        }
+        Ok(Ok(z)) => z,
+    };
+    acc.validated += 1;
+    let d2 = dump_zone(&z2);
+    if d2 != d1 {
+        let part = if d1.apex != d2.apex {
+            "apex"
+        } else if d1.soa != d2.soa {
+            "soa"
+        } else if d1.recs != d2.recs {
+            "records"
+        } else {
+            "wildcard-records"
+        };
+        let slug = match lone_at_reading(&d1) {
+            Some(alt) if alt == d2 => Some(SLUG_LONE_AT),
+            _ => None,
+        };
+        let clause = if slug.is_some() { "lone-at-label-read-as-apex".to_string() } else { format!("zone-changed:{part}") };
+        acc.h(&format!("{space}:VIOLATION-{clause}"));
+        violate(
+            acc,
+            sink,
+            &clause,
+            slug,
+            format!(
+                "{shown} [{space}]: zone {} is written as {} and read back as {}",
+                d1.to_json(),
+                short(&t2),
+                d2.to_json()
+            ),
+            replay.clone(),
+        );
+        return;
+    }
+    if z2 != *z1 {
+        // same meaning, different internal layout: not part of the statement
+        acc.h("same-dump-but-structural-eq-differs");
+    }
+    acc.calls += 1;
+    let t3 = match serialise(&z2) {
+        Ok(t) => t,
+        Err(()) => {
+            violate(acc, sink, "panic", None, format!("{shown} [{space}]: second serialise panicked"), replay.clone());
+            return;
+        }
+    };
+    let single = single_order(z1);
+    if canonical(&t3) != canonical(&t2) {
+        acc.h(&format!("{space}:VIOLATION-not-idempotent"));
+        violate(
+            acc,
+            sink,
+            "second-normalisation-differs",
+            None,
+            format!("{shown} [{space}]: first output {} second output {}", short(&t2), short(&t3)),
+            replay.clone(),
+        );
+        return;
+    }
+    if single {
+        if t3 != t2 {
+            violate(
+                acc,
+                sink,
+                "second-normalisation-differs-bytewise",
+                None,
+                format!("{shown} [{space}]: first output {} second output {}", short(&t2), short(&t3)),
+                replay.clone(),
+            );
+            return;
+        }
+        acc.h(&format!("{space}:ok-bytewise"));
+    } else {
+        acc.h(&format!("{space}:ok-up-to-line-order-within-a-name"));
+    }
+    if acc.samples.len() < 2 && acc.cases % 4099 == 7 {
+        acc.samples.push(json!({"space": space, "input": shown, "serialised": t2}));
+    }
+}
+
+fn check_text(acc: &mut Acc, sink: &Sink, space: &str, text: &str) {
+    acc.cases += 1;
+    acc.calls += 1;
+    let replay = json!({"kind": "roundtrip-text", "space": space, "text": text});
+    match parse(text) {
+        Err(()) => violate(acc, sink, "panic", None, format!("{} [{space}]: Zone::deserialise panicked", short(text)), replay),
+        Ok(Err(_)) => acc.h(&format!("{space}:input-not-a-zone")),
+        Ok(Ok(z1)) => round_trip(acc, sink, space, &z1, &short(text), &replay),
+    }
+}
+
+// ---------------------------------------------------------------------------
+// zones built through the insertion API
+// ---------------------------------------------------------------------------
+
+#[derive(Clone)]
+struct ApiRec {
+    owner: DomainName,
+    wild: bool,
+    data: RecordTypeWithData,
+    ttl: u32,
+}
+
+#[derive(Clone)]
+struct ApiZone {
+    apex: DomainName,
+    soa: Option<SOA>,
+    recs: Vec<ApiRec>,
+}
+
+impl ApiZone {
+    fn build(&self) -> Zone {
+        let mut z = Zone::new(self.apex.clone(), self.soa.clone());
+        for r in &self.recs {
+            if r.wild {
+                z.insert_wildcard(&r.owner, r.data.clone(), r.ttl);
+            } else {
+                z.insert(&r.owner, r.data.clone(), r.ttl);
+            }
+        }
+        z
+    }
+    fn to_json(&self) -> Value {
+        json!({
+            "kind": "roundtrip-api",
+            "apex": hex(&wire_name(&self.apex)),
+            "apex_text": show_name(&self.apex),
+            "soa": self.soa.as_ref().map(|s| hex(&crate::refwire::encode_rdata_with_type(&s.to_rdata()))),
+            "records": self.recs.iter().map(|r| json!({
+                "owner": hex(&wire_name(&r.owner)),
+                "owner_text": show_name(&r.owner),
+                "wildcard": r.wild,
+                "ttl": r.ttl,
+                "data": show_data(&r.data),
+                "rr_wire": hex(&crate::refwire::encode_rdata_with_type(&r.data)),
+            })).collect::<Vec<_>>(),
+        })
+    }
+    fn from_json(v: &Value) -> Option<ApiZone> {
+        let apex = name_from_wire(&unhex(v["apex"].as_str()?));
+        let soa = match v["soa"].as_str() {
+            Some(h) => match crate::refwire::decode_rdata_with_type(&unhex(h))? {
+                RecordTypeWithData::SOA { mname, rname, serial, refresh, retry, expire, minimum } => Some(SOA {
+                    mname,
+                    rname,
+                    serial,
+                    refresh,
+                    retry,
+                    expire,
+                    minimum,
+                }),
+                _ => return None,
+            },
+            None => None,
+        };
+        let mut recs = Vec::new();
+        for r in v["records"].as_array()? {
+            recs.push(ApiRec {
+                owner: name_from_wire(&unhex(r["owner"].as_str()?)),
+                wild: r["wildcard"].as_bool()?,
+                data: crate::refwire::decode_rdata_with_type(&unhex(r["rr_wire"].as_str()?))?,
+                ttl: r["ttl"].as_u64()? as u32,
+            });
+        }
+        Some(ApiZone { apex, soa, recs })
+    }
+    fn shown(&self) -> String {
+        format!(
+            "Zone::new({}, {}) + {}",
+            show_name(&self.apex),
+            match &self.soa {
+                Some(s) => show_data(&s.to_rdata()),
+                None => "no SOA".to_string(),
+            },
+            self.recs
+                .iter()
+                .map(|r| format!("{}{} {} {}", if r.wild { "*." } else { "" }, show_name(&r.owner), r.ttl, show_data(&r.data)))
+                .collect::<Vec<_>>()
+                .join(" + ")
+        )
+    }
+}
+
+fn check_api(acc: &mut Acc, sink: &Sink, space: &str, az: &ApiZone) {
+    acc.cases += 1;
+    let z1 = match std::panic::catch_unwind(|| az.build()) {
+        Ok(z) => z,
+        Err(_) => {
+            violate(acc, sink, "panic", None, format!("{} [{space}]: building the zone panicked", az.shown()), az.to_json());
+            return;
+        }
+    };
+    round_trip(acc, sink, space, &z1, &az.shown(), &az.to_json());
+}
+
+fn std_soa(apex: &DomainName, minimum: u32) -> SOA {
+    SOA {
+        mname: prepend(b"ns1", apex),
+        rname: prepend(b"admin", apex),
+        serial: 1,
+        refresh: 7200,
+        retry: 600,
+        expire: 3600000,
+        minimum,
+    }
+}
+
+/// Labels holding octet `b` alone, first, in the middle, last.
+fn labels_with(b: u8) -> Vec<Vec<u8>> {
+    vec![vec![b], vec![b, b'x', b'y'], vec![b'x', b, b'y'], vec![b'x', b'y', b]]
+}
+
+/// The three kinds of zone: (apex, authoritative)
+fn zone_kinds() -> Vec<(DomainName, bool)> {
+    vec![(dn("ex."), true), (dn("."), false), (dn("."), true)]
+}
+
+fn api_corpus(level: u8) -> Vec<(&'static str, ApiZone)> {
+    let mut out: Vec<(&'static str, ApiZone)> = Vec::new();
+    let mk = |apex: &DomainName, auth: bool, recs: Vec<ApiRec>| ApiZone {
+        apex: apex.clone(),
+        soa: if auth { Some(std_soa(apex, 60)) } else { None },
+        recs,
+    };
+    let a_rec = |owner: DomainName, wild: bool| ApiRec { owner, wild, data: a([10, 0, 0, 1]), ttl: 300 };
+    // (1) every ASCII octet except `.` in a label, four positions, four roles
+    let mut label_sets: Vec<Vec<u8>> = Vec::new();
+    for b in 0u8..128 {
+        if b == b'.' {
+            continue;
+        }
+        for l in labels_with(b) {
+            if l[0] == b'*' {
+                continue; // outside the statement (labels do not start with `*`)
+            }
+            label_sets.push(l);
+        }
+    }
+    // (2) ordered pairs of the special octets
+    for x in SPECIALS {
+        for y in SPECIALS {
+            if x == b'*' {
+                continue;
+            }
+            label_sets.push(vec![x, y]);
+            label_sets.push(vec![b'a', x, y, b'z']);
+        }
+    }
+    for l in &label_sets {
+        for (apex, auth) in zone_kinds() {
+            let name = prepend(l, &apex);
+            // owner (relative to the apex when the zone is authoritative and not the root)
+            out.push(("api-label-owner", mk(&apex, auth, vec![a_rec(name.clone(), false)])));
+            out.push(("api-label-wildcard-owner", mk(&apex, auth, vec![a_rec(name.clone(), true)])));
+            // two labels deep, the swept label not leftmost
+            out.push(("api-label-owner", mk(&apex, auth, vec![a_rec(prepend(b"www", &name), false)])));
+            // inside RDATA names
+            out.push((
+                "api-label-rdata",
+                mk(
+                    &apex,
+                    auth,
+                    vec![
+                        ApiRec { owner: prepend(b"www", &apex), wild: false, data: cname(&name), ttl: 300 },
+                        ApiRec { owner: apex.clone(), wild: false, data: mx(10, &name), ttl: 300 },
+                    ],
+                ),
+            ));
+            if auth {
+                // SOA mname / rname
+                let mut z = mk(&apex, true, vec![]);
+                if let Some(s) = &mut z.soa {
+                    s.mname = name.clone();
+                    s.rname = prepend(b"admin", &name);
+                }
+                out.push(("api-label-rdata", z));
+                // as the apex label itself
+                let apex2 = name.clone();
+                out.push((
+                    "api-label-apex",
+                    mk(&apex2, true, vec![a_rec(apex2.clone(), false), a_rec(prepend(b"www", &apex2), false)]),
+                ));
+            }
+        }
+    }
+    // (3) every octet in opaque RDATA, four positions, four types
+    for b in 0u16..256 {
+        let b = b as u8;
+        for content in labels_with(b) {
+            for (apex, auth) in zone_kinds().into_iter().take(if level >= 2 { 3 } else { 1 }) {
+                let o = bytes::Bytes::copy_from_slice(&content);
+                let recs = vec![
+                    ApiRec { owner: prepend(b"t", &apex), wild: false, data: RecordTypeWithData::TXT { octets: o.clone() }, ttl: 300 },
+                    ApiRec { owner: prepend(b"h", &apex), wild: false, data: RecordTypeWithData::HINFO { octets: o.clone() }, ttl: 300 },
+                    ApiRec { owner: prepend(b"n", &apex), wild: true, data: RecordTypeWithData::NULL { octets: o.clone() }, ttl: 300 },
+                    ApiRec { owner: apex.clone(), wild: false, data: RecordTypeWithData::WKS { octets: o.clone() }, ttl: 300 },
+                ];
+                out.push(("api-octet-rdata", mk(&apex, auth, recs)));
+            }
+        }
+    }
+    for x in SPECIALS {
+        for y in SPECIALS {
+            let apex = dn("ex.");
+            let o = bytes::Bytes::copy_from_slice(&[x, y]);
+            out.push((
+                "api-octet-rdata",
+                mk(&apex, true, vec![ApiRec { owner: apex.clone(), wild: false, data: RecordTypeWithData::TXT { octets: o }, ttl: 300 }]),
+            ));
+        }
+    }
+    out.push((
+        "api-octet-rdata",
+        mk(&dn("ex."), true, vec![ApiRec { owner: dn("e.ex."), wild: false, data: RecordTypeWithData::TXT { octets: bytes::Bytes::new() }, ttl: 300 }]),
+    ));
+    // (4) every type and RDATA variant x owner kind x zone kind x TTL
+    for (apex, auth) in zone_kinds() {
+        let base: Name = apex.labels.iter().filter(|l| !l.is_empty()).map(|l| l.octets().to_vec()).collect();
+        for t in NON_SOA_TYPES {
+            for rv in rdata_variants(t, &base, 2) {
+                for (owner, wild) in [
+                    (apex.clone(), false),
+                    (apex.clone(), true),
+                    (prepend(b"www", &apex), false),
+                    (prepend(b"www", &apex), true),
+                    (prepend(b"a", &prepend(b"b", &apex)), false),
+                ] {
+                    for ttl in [300u32, 30, 0, u32::MAX] {
+                        out.push(("api-types", mk(&apex, auth, vec![ApiRec { owner: owner.clone(), wild, data: rv.data.to_rtwd(), ttl }])));
+                    }
+                }
+            }
+        }
+        // several types at one name, normal and wildcard sets side by side
+        let mut many = Vec::new();
+        for (i, t) in NON_SOA_TYPES.iter().enumerate() {
+            let rv = rdata_variants(*t, &base, 0).remove(0);
+            many.push(ApiRec { owner: prepend(b"www", &apex), wild: i % 2 == 0, data: rv.data.to_rtwd(), ttl: 100 + i as u32 });
+            many.push(ApiRec { owner: apex.clone(), wild: i % 3 == 0, data: rv.data.to_rtwd(), ttl: 100 + i as u32 });
+        }
+        many.push(ApiRec { owner: prepend(b"www", &apex), wild: false, data: a([10, 0, 0, 2]), ttl: 7 });
+        many.push(ApiRec { owner: prepend(b"www", &apex), wild: false, data: a([10, 0, 0, 2]), ttl: 8 });
+        out.push(("api-many", mk(&apex, auth, many)));
+    }
+    // other SOA minimum values
+    for minimum in [0u32, 1, u32::MAX] {
+        let apex = dn("ex.");
+        let mut z = mk(&apex, true, vec![a_rec(prepend(b"www", &apex), false), a_rec(apex.clone(), true)]);
+        z.soa = Some(std_soa(&apex, minimum));
+        out.push(("api-types", z));
+    }
+    out
+}
+
+// ---------------------------------------------------------------------------
+// sweeps written as text
+// ---------------------------------------------------------------------------
+
+fn ddd(bytes: &[u8]) -> String {
+    bytes.iter().map(|b| format!("\\{b:03}")).collect()
+}
+
+/// Text forms of an octet string inside a name or a bare token: all `\DDD`;
+/// `\X` for printing non-digit octets.
+fn label_forms(l: &[u8]) -> Vec<String> {
+    let mut v = vec![ddd(l)];
+    let mut s = String::new();
+    for &b in l {
+        if (33..=126).contains(&b) && !b.is_ascii_digit() {
+            s.push('\\');
+            s.push(b as char);
+        } else {
+            s.push_str(&format!("\\{b:03}"));
+        }
+    }
+    v.push(s);
+    // raw, when that is ordinary text
+    if l.iter().all(|b| b.is_ascii_alphanumeric() || *b == b'-' || *b == b'_') {
+        v.push(String::from_utf8_lossy(l).to_string());
+    }
+    v
+}
+
+fn text_corpus(level: u8) -> Vec<(&'static str, String)> {
+    let mut out: Vec<(&'static str, String)> = Vec::new();
+    let soa = "@ 3600 IN SOA ns1 admin 1 7200 600 3600000 60\n";
+    // (1) labels: every ASCII octet except `.`, four positions, roles
+    let mut labels: Vec<Vec<u8>> = Vec::new();
+    for b in 0u8..128 {
+        if b != b'.' {
+            labels.extend(labels_with(b));
+        }
+    }
+    for x in SPECIALS {
+        for y in SPECIALS {
+            labels.push(vec![x, y]);
+            labels.push(vec![b'a', x, y, b'z']);
+        }
+    }
+    for l in &labels {
+        for f in label_forms(l) {
+            // relative owner in an authoritative zone (written absolutely: the
+            // serialiser is the one that has to write it relatively)
+            out.push(("text-label-owner", format!("$ORIGIN ex.\n{soa}{f}.ex. 300 IN A 10.0.0.1\nwww.{f}.ex. 300 IN A 10.0.0.2\n")));
+            // written relatively as well
+            out.push(("text-label-owner", format!("$ORIGIN ex.\n{soa}{f} 300 IN A 10.0.0.1\nwww.{f} 300 IN A 10.0.0.2\n*.{f} 300 IN A 10.0.0.3\n")));
+            // absolute owner, no SOA
+            out.push(("text-label-owner", format!("{f}.ex. 300 IN A 10.0.0.1\n*.{f}. 300 IN A 10.0.0.3\n")));
+            // root apex, authoritative
+            out.push(("text-label-owner", format!(". 3600 IN SOA ns1. admin. 1 7200 600 3600000 60\n{f}. 300 IN A 10.0.0.1\n")));
+            // the apex label itself
+            out.push(("text-label-apex", format!("{f}.ex. 3600 IN SOA ns1.{f}.ex. admin.ex. 1 7200 600 3600000 60\nwww.{f}.ex. 300 IN A 10.0.0.1\n{f}.ex. 300 IN A 10.0.0.2\n")));
+            // inside RDATA names
+            out.push((
+                "text-label-rdata",
+                format!("$ORIGIN ex.\n@ 3600 IN SOA {f} admin.{f} 1 7200 600 3600000 60\nwww 300 IN CNAME {f}.ex.\n@ 300 IN MX 10 {f}\n@ 300 IN MINFO {f}.other. x.{f}\n"),
+            ));
+            out.push(("text-label-rdata", format!("www.ex. 300 IN CNAME {f}.ex.\nex. 300 IN SRV 1 2 3 {f}.\n")));
+        }
+    }
+    // (2) opaque RDATA: every octet, four positions, four types, three forms
+    let mut contents: Vec<Vec<u8>> = Vec::new();
+    for b in 0u16..256 {
+        contents.extend(labels_with(b as u8));
+    }
+    for x in SPECIALS {
+        for y in SPECIALS {
+            contents.push(vec![x, y]);
+        }
+    }
+    for c in &contents {
+        let mut forms = vec![ddd(c)];
+        for f in [OpForm::Bare, OpForm::Quoted, OpForm::QuotedAllX] {
+            if let Some(s) = render_opaque(c, f) {
+                forms.push(s);
+            }
+        }
+        for f in forms {
+            for t in ["TXT", "HINFO", "NULL", "WKS"] {
+                out.push(("text-octet-rdata", format!("$ORIGIN ex.\n{soa}t 300 IN {t} {f}\n* 300 IN {t} {f}\n")));
+                if level >= 2 {
+                    out.push(("text-octet-rdata", format!("t.ex. 300 IN {t} {f}\n")));
+                    out.push(("text-octet-rdata", format!(". 3600 IN SOA ns1. admin. 1 7200 600 3600000 60\n. 300 IN {t} {f}\n")));
+                }
+            }
+        }
+    }
+    for z in base_corpus() {
+        out.push(("base-corpus", z));
+    }
+    out
+}
+
+// ---------------------------------------------------------------------------
+// the ztoz binary
+// ---------------------------------------------------------------------------
+
+fn run_ztoz(bin: &str, input: &str) -> Result<(i32, String), String> {
+    let mut child = Command::new(bin)
+        .stdin(Stdio::piped())
+        .stdout(Stdio::piped())
+        .stderr(Stdio::null())
+        .spawn()
+        .map_err(|e| format!("cannot start {bin}: {e}"))?;
+    {
+        let mut stdin = child.stdin.take().ok_or("no stdin")?;
+        // ignore EPIPE: the program may exit before reading everything
+        let _ = stdin.write_all(input.as_bytes());
+    }
+    let out = child.wait_with_output().map_err(|e| format!("wait: {e}"))?;
+    let code = out.status.code().unwrap_or(-1);
+    Ok((code, String::from_utf8_lossy(&out.stdout).to_string()))
+}
+
+/// 0 agree, 1 violation pushed, 2 machinery problem
+fn check_ztoz(acc: &mut Acc, sink: &Sink, bin: &str, text: &str, errors: &std::sync::Mutex<Vec<String>>) {
+    acc.cases += 1;
+    let replay = json!({"kind": "ztoz", "text": text});
+    let z1 = match parse(text) {
+        Ok(Ok(z)) => z,
+        _ => {
+            // the program must refuse it as well
+            match run_ztoz(bin, text) {
+                Ok((code, out)) => {
+                    acc.calls += 1;
+                    if code == 0 {
+                        violate(acc, sink, "ztoz-accepts-what-the-library-rejects", None, format!("{}: ztoz printed {}", short(text), short(&out)), replay);
+                    } else {
+                        acc.h("ztoz:rejected-like-the-library");
+                    }
+                }
+                Err(e) => errors.lock().unwrap().push(e),
+            }
+            return;
+        }
+    };
+    let t2 = match serialise(&z1) {
+        Ok(t) => t,
+        Err(()) => return,
+    };
+    let single = single_order(&z1);
+    let same = |a: &str, b: &str| if single { a == b } else { canonical(a) == canonical(b) };
+    let (c1, o1) = match run_ztoz(bin, text) {
+        Ok(x) => x,
+        Err(e) => {
+            errors.lock().unwrap().push(e);
+            return;
+        }
+    };
+    acc.calls += 1;
+    if c1 != 0 || !same(&o1, &t2) {
+        violate(
+            acc,
+            sink,
+            "ztoz-output-differs-from-serialise",
+            None,
+            format!("{}: ztoz exit {c1} output {} but Zone::serialise gives {}", short(text), short(&o1), short(&t2)),
+            replay,
+        );
+        return;
+    }
+    let (c2, o2) = match run_ztoz(bin, &o1) {
+        Ok(x) => x,
+        Err(e) => {
+            errors.lock().unwrap().push(e);
+            return;
+        }
+    };
+    acc.calls += 1;
+    acc.validated += 1;
+    if c2 != 0 || !same(&o2, &o1) {
+        // is it the anticipated defect?
+        let slug = match (parse(&o1), lone_at_reading(&dump_zone(&z1))) {
+            (Ok(Ok(z2)), Some(alt)) if dump_zone(&z2) == alt => Some(SLUG_LONE_AT),
+            _ => None,
+        };
+        let clause = if slug.is_some() { "lone-at-label-read-as-apex" } else { "ztoz-twice-differs" };
+        violate(
+            acc,
+            sink,
+            clause,
+            slug,
+            format!("{}: ztoz gives {} and, fed that, exit {c2} output {}", short(text), short(&o1), short(&o2)),
+            replay,
+        );
+        return;
+    }
+    if single {
+        acc.h("ztoz:ok-bytewise");
+    } else {
+        acc.h("ztoz:ok-up-to-line-order-within-a-name");
+    }
+}
+
+// ---------------------------------------------------------------------------
+
+fn merge(total: &mut Acc, parts: Vec<Acc>) {
+    for p in parts {
+        total.cases += p.cases;
+        total.calls += p.calls;
+        total.validated += p.validated;
+        for (k, v) in p.hist {
+            *total.hist.entry(k).or_insert(0) += v;
+        }
+        for (k, v) in p.vcount {
+            *total.vcount.entry(k).or_insert(0) += v;
+        }
+        total.hashes.extend(p.hashes);
+        for s in p.samples {
+            if total.samples.len() < 6 {
+                total.samples.push(s);
+            }
+        }
+    }
+}
+
+pub fn run(ctx: &Ctx) -> i32 {
+    let level: u8 = ctx.tier.pick(1, 2);
+    let sink = Sink::new(30);
+    let mut report = Report::new();
+    let mut total = Acc::default();
+    let cap = ctx.tier.pick(50.0, 540.0);
+    let mut exhaustive = true;
+    let mut sizes: BTreeMap<String, Value> = BTreeMap::new();
+
+    let bin = ztoz_path();
+    if !std::path::Path::new(&bin).exists() {
+        eprintln!("machinery error: {bin} not found (build it with /verif/check C13, or set VERIF_ZTOZ)");
+        return 2;
+    }
+
+    // (a) sweeps written as text
+    let texts = text_corpus(level);
+    sizes.insert("text-sweeps".into(), json!(texts.len()));
+    let parts = par_fold(texts.len(), ctx.threads, ctx.seed, Acc::default, |acc, i| {
+        check_text(acc, &sink, texts[i].0, &texts[i].1);
+    });
+    merge(&mut total, parts);
+
+    // (b) zones built through the insertion API
+    let apis = api_corpus(level);
+    sizes.insert("api-zones".into(), json!(apis.len()));
+    let parts = par_fold(apis.len(), ctx.threads, ctx.seed, Acc::default, |acc, i| {
+        check_api(acc, &sink, apis[i].0, &apis[i].1);
+    });
+    merge(&mut total, parts);
+
+    // (c) C11's corpus of single records and ordered pairs (every owner /
+    //     TTL / class / name form, every RDATA variant; one layout, since the
+    //     layout does not reach the zone value)
+    let singles = Singles::with(0, level);
+    let pairs = Pairs::new(if level >= 2 { 1 } else { 0 });
+    let triples = Triples::new(1);
+    let spaces: Vec<(&'static str, usize, Box<dyn Fn(usize) -> Option<FileSpec> + Sync + '_>)> = vec![
+        ("c11-singles", singles.count(), Box::new(|i| singles.spec(i))),
+        ("c11-triples", if level >= 2 { triples.count() } else { 0 }, Box::new(|i| triples.spec(i))),
+        ("c11-pairs", pairs.count(), Box::new(|i| pairs.spec(i))),
+    ];
+    let mut ztoz_inputs: Vec<String> = Vec::new();
+    for (name, count, spec) in &spaces {
+        if ctx.elapsed() > cap {
+            exhaustive = false;
+            sizes.insert(name.to_string(), json!({"index_space": count, "skipped_because_of_time_cap": true}));
+            continue;
+        }
+        let stop = std::sync::atomic::AtomicBool::new(false);
+        let parts = par_fold(*count, ctx.threads, ctx.seed, Acc::default, |acc, i| {
+            if stop.load(std::sync::atomic::Ordering::Relaxed) {
+                acc.h("cut-by-time-cap");
+                return;
+            }
+            if i % 4096 == 0 && ctx.elapsed() > cap {
+                stop.store(true, std::sync::atomic::Ordering::Relaxed);
+            }
+            if let Some(b) = spec(i).and_then(|s| build(&s, Hyp::default())) {
+                check_text(acc, &sink, name, &b.text);
+            } else {
+                acc.h("index-without-file");
+            }
+        });
+        if stop.load(std::sync::atomic::Ordering::Relaxed) {
+            exhaustive = false;
+        }
+        merge(&mut total, parts);
+        sizes.insert(name.to_string(), json!({"index_space": count, "done_at_s": ctx.elapsed()}));
+        // a deterministic stride of this space also goes through the binary
+        let stride = (*count / ctx.tier.pick(15, 120)).max(1);
+        let mut i = 0;
+        while i < *count {
+            if let Some(b) = spec(i).and_then(|s| build(&s, Hyp::default())) {
+                ztoz_inputs.push(b.text);
+            }
+            i += stride;
+        }
+    }
+
+    // (d) the ztoz binary on a sub-corpus
+    {
+        let stride = ctx.tier.pick(1499, 149);
+        for (i, (_, t)) in texts.iter().enumerate() {
+            if i % stride == 0 {
+                ztoz_inputs.push(t.clone());
+            }
+        }
+        // every ordered pair of special octets as label and as RDATA, always
+        for x in SPECIALS {
+            for y in SPECIALS {
+                let l = ddd(&[x, y]);
+                ztoz_inputs.push(format!("$ORIGIN ex.\n@ 3600 IN SOA ns1 admin 1 7200 600 3600000 60\n{l}.ex. 300 IN TXT {l}\n"));
+            }
+        }
+        for x in SPECIALS {
+            let l = ddd(&[x]);
+            ztoz_inputs.push(format!("$ORIGIN ex.\n@ 3600 IN SOA ns1 admin 1 7200 600 3600000 60\n{l}.ex. 300 IN TXT {l}\nwww 300 IN CNAME {l}.ex.\n"));
+        }
+        ztoz_inputs.sort();
+        ztoz_inputs.dedup();
+        sizes.insert("ztoz-inputs".into(), json!(ztoz_inputs.len()));
+        let errors = std::sync::Mutex::new(Vec::new());
+        let stop = std::sync::atomic::AtomicBool::new(false);
+        let hard_cap = cap + ctx.tier.pick(8.0, 50.0);
+        let parts = par_jobs(ztoz_inputs.len(), ctx.threads, Acc::default, |acc, i| {
+            if stop.load(std::sync::atomic::Ordering::Relaxed) {
+                acc.h("cut-by-time-cap");
+                return;
+            }
+            if ctx.elapsed() > hard_cap {
+                stop.store(true, std::sync::atomic::Ordering::Relaxed);
+            }
+            check_ztoz(acc, &sink, &bin, &ztoz_inputs[i], &errors);
+        });
+        if stop.load(std::sync::atomic::Ordering::Relaxed) {
+            exhaustive = false;
+        }
+        merge(&mut total, parts);
+        let errs = errors.into_inner().unwrap();
+        if !errs.is_empty() {
+            eprintln!("machinery error: ztoz could not be run: {}", errs[0]);
+            return 2;
+        }
+    }
+
+    total.hashes.sort_unstable();
+    total.hashes.dedup();
+    let cut = total.hist.remove("cut-by-time-cap").unwrap_or(0);
+    report.evaluations = total.cases;
+    report.states = total.hashes.len() as u64;
+    report.transitions = total.calls;
+    report.traces_validated = total.validated;
+    report.distinct_nontrivial = total.hashes.iter().filter(|h| *h & 1 == 1).count() as u64;
+    report.rule = "inputs: (a) text sweeps (every ASCII octet except `.` in a label alone/first/middle/last and every ordered pair of the 13 special octets, as owner written absolutely and relatively, under a wildcard, as apex label, inside CNAME/MX/MINFO/SRV/SOA names; every octet 0..255 and every special pair in TXT/HINFO/NULL/WKS RDATA in up to four text forms; authoritative non-root, authoritative root and non-authoritative zones), (b) the same label and octet sweeps plus every type/RDATA variant/owner kind/TTL and many-types-per-name zones built with Zone::new/insert/insert_wildcard, (c) C11's single-record and ordered-pair corpus in one layout, (d) a stride of all of these through the ztoz binary; states = distinct serialisations (hash of the text with lines sorted inside each name block); a case is non-trivial when the serialised text contains an escape, a quoted string, `@` or a wildcard owner; transitions = parse/serialise/ztoz calls; traces validated = round trips completed and compared".into();
+    report.samples = total.samples;
+    report.bounds = json!({"level": level, "sizes": sizes, "indices_cut_by_time_cap": cut, "time_cap_s": cap, "ztoz": bin});
+    report.exhaustive = exhaustive;
+    report.outcome_histogram = total.hist;
+    report.assumptions = vec![
+        "equality of zones is judged on apex, SOA, records, wildcard records and TTLs as sorted lists; `Zone: PartialEq` is evaluated too but a structural difference with equal lists is only counted (histogram key same-dump-but-structural-eq-differs)".into(),
+        "Zone::serialise prints the record types of one name in HashMap iteration order, which differs between two maps and between processes: byte-for-byte equality of two serialisations (and of ztoz output) is demanded only for zones in which no name holds two types; otherwise the lines of one name are compared as a multiset".into(),
+        "zones built through the API are root-apex non-authoritative or authoritative (a non-authoritative zone with another apex cannot be obtained by parsing); labels ASCII, no dot, not starting with `*` (statement); D9: the 18 text-representable types".into(),
+        "text inputs the parser rejects are not zones and are only counted".into(),
+    ];
+    report.extra.insert("violation_counts".into(), json!(total.vcount));
+    report.violations = sink.take();
+    // unanticipated families first: `finish` prints only the first dozen
+    report.violations.sort_by_key(|v| v.slug.is_some());
+    finish(ctx, report)
+}
+
+pub fn replay(ctx: &Ctx, v: &Value) -> i32 {
+    let sink = Sink::new(10);
+    let mut acc = Acc::default();
+    match v["kind"].as_str().unwrap_or("") {
+        "roundtrip-text" => {
+            let text = v["text"].as_str().unwrap_or("");
+            println!("input text:\n{text}");
+            if let Ok(Ok(z1)) = parse(text) {
+                println!("zone read:      {}", dump_zone(&z1).to_json());
+                if let Ok(t2) = serialise(&z1) {
+                    println!("serialised as:\n{t2}");
+                    match parse(&t2) {
+                        Ok(Ok(z2)) => println!("read back as:   {}", dump_zone(&z2).to_json()),
+                        Ok(Err(e)) => println!("read back as:   error {e}"),
+                        Err(()) => println!("read back:      panic"),
+                    }
+                }
+            } else {
+                println!("the input is not a zone file");
+            }
+            check_text(&mut acc, &sink, "replay", text);
+        }
+        "roundtrip-api" => match ApiZone::from_json(v) {
+            Some(az) => {
+                println!("zone built: {}", az.shown());
+                let z1 = az.build();
+                if let Ok(t2) = serialise(&z1) {
+                    println!("serialised as:\n{t2}");
+                    match parse(&t2) {
+                        Ok(Ok(z2)) => println!("zone built:   {}\nread back as: {}", dump_zone(&z1).to_json(), dump_zone(&z2).to_json()),
+                        Ok(Err(e)) => println!("read back as: error {e}"),
+                        Err(()) => println!("read back: panic"),
+                    }
+                }
+                check_api(&mut acc, &sink, "replay", &az);
+            }
+            None => {
+                eprintln!("bad replay file");
+                return 2;
+            }
+        },
+        "ztoz" => {
+            let text = v["text"].as_str().unwrap_or("");
+            let bin = ztoz_path();
+            println!("input text:\n{text}");
+            if let Ok((c, o)) = run_ztoz(&bin, text) {
+                println!("ztoz exit {c}, output:\n{o}");
+                if let Ok((c2, o2)) = run_ztoz(&bin, &o) {
+                    println!("ztoz on its own output: exit {c2}, output:\n{o2}");
+                }
+            }
+            let errors = std::sync::Mutex::new(Vec::new());
+            check_ztoz(&mut acc, &sink, &bin, text, &errors);
+            if let Some(e) = errors.into_inner().unwrap().first() {
+                eprintln!("machinery error: {e}");
+                return 2;
+            }
+        }
+        other => {
+            eprintln!("unknown replay kind {other}");
+            return 2;
+        }
+    }
+    let vs = sink.take();
+    if vs.is_empty() {
+        println!("replay: property holds on this case");
+        0
+    } else {
+        for x in &vs {
+            println!("clause {}: {}", x.clause, x.summary);
+        }
+        println!("VIOLATION property={} replay=(replayed case)", ctx.id);
+        1
+    }
+}
+
 pub fn worker(_args: &[String]) -> i32 {
     2
 }
